@@ -331,7 +331,7 @@ class ActionLink(Action):
             parser.logger.debug(f"Applied link '{action.option_strings[0]}'.")
 
     @staticmethod
-    def apply_instantiation_links(parser, cfg, target=None, order=None):
+    def apply_instantiation_links(parser, cfg, target=None, order=None, instantiated=None):
         if not hasattr(parser, "_links_group"):
             return
 
@@ -349,7 +349,11 @@ class ActionLink(Action):
                 continue
             source_objects = []
             for source_key, source_action in action.source:
-                source_object = cfg[source_action.dest]
+                if instantiated and source_action.dest in instantiated:
+                    # cfg may no longer lead to it: an enclosing class group has taken it as argument
+                    source_object = instantiated[source_action.dest]
+                else:
+                    source_object = cfg[source_action.dest]
                 if source_key == source_action.dest:
                     source_objects.append(source_object)
                 else:
